@@ -6,53 +6,98 @@ Open Scope Q_scope.
 
 (* witnesses of the input classes on which the unchanged code's numbers disagree *)
 Definition w_negcount : pt * env :=
-  (PRep (EVar 1%N) (PAtom KConst 0 (EVar 0%N)), [(0%N, VTime (1 # 10)); (1%N, VInt (-2))]).
+  (PRep (EVar 1%N) (PAtom KConst [Some 0%Z] (EVar 0%N)), [(0%N, VTime (1 # 10)); (1%N, VInt (-2))]).
 Definition w_negdur : pt * env :=
-  (PSeq [PAtom KConst 0 (EVar 0%N); PAtom KConst 0 (ELit (VInt 3))], [(0%N, VInt (-2))]).
+  (PSeq [PAtom KConst [Some 0%Z] (EVar 0%N); PAtom KConst [Some 0%Z] (ELit (VInt 3))], [(0%N, VInt (-2))]).
 Definition w_nearint : pt * env :=
-  (PRep (EVar 1%N) (PAtom KConst 0 (ELit (VInt 1))), [(1%N, VTime (20000001 # 10000000))]).
+  (PRep (EVar 1%N) (PAtom KConst [Some 0%Z] (ELit (VInt 1))), [(1%N, VTime (20000001 # 10000000))]).
 Definition w_parallel : pt * env :=
-  (PMulti None [PAtom KConst 0 (ELit (VInt 0)); PAtom KConst 1 (ELit (VInt 5))], []).
+  (PMulti None [PAtom KConst [Some 0%Z] (ELit (VInt 0)); PAtom KConst [Some 1%Z] (ELit (VInt 5))], []).
+
+(* an atom none of whose channels is played: MappingPT(ConstantPT(3, {c0: 1}), channel_mapping={c0: None}) *)
+Definition w_dropped : pt * env :=
+  (PSeq [PMap [] [(0%Z, None)] (PAtom KConst [Some 0%Z] (ELit (VInt 3)))], []).
+(* finding C04-zero-length-function-leaf: ForLoopPT(AtomicMultiChannelPT(ConstantPT('i', {b}), FunctionPT(.., 'i', a)),
+   'i', (0, 7, 3)): at i = 0 the constant part has no waveform, the function part a zero-length one *)
+Definition w_zero_func : pt * env :=
+  (PFor 0%N (ELit (VInt 0)) (ELit (VInt 7)) (ELit (VInt 3))
+     (PMulti None [PAtom KConst [Some 1%Z] (EVar 0%N); PAtom KFunc [Some 0%Z] (EVar 0%N)]), []).
 
 Definition disagrees (w : pt * env) : Prop :=
-  exists kids v, cp real (fst w) (snd w) = Ok kids /\ sym (fst w) (decimalize (snd w)) = Ok v /\ ~ time_of v == total kids.
+  exists kids v, cp real (rs (fst w)) (snd w) = Ok kids /\ sym (fst w) (decimalize (snd w)) = Ok v /\ ~ time_of v == total kids.
 
 (* a non-trivial input that satisfies every hypothesis of the guarded theorems *)
 Definition ex_tpl : pt :=
-  PSeq [PRep (EVar 2%N) (PMap [(5%N, EMul (EVar 0%N) (ELit (VInt 3)))] (PAtom KConst 0 (EVar 5%N)));
-        PRev (PMulti (Some (EVar 1%N)) [PAtom KFunc 1 (EVar 1%N); PWrap (PAtom KConst 0 (EVar 1%N))])].
+  PSeq [PRep (EVar 2%N) (PMap [(5%N, EMul (EVar 0%N) (ELit (VInt 3)))] [] (PAtom KConst [Some 0%Z; Some 1%Z] (EVar 5%N)));
+        PRev (PMulti (Some (EVar 1%N)) [PAtom KFunc [Some 1%Z] (EVar 1%N); PWrap (PAtom KConst [Some 0%Z] (EVar 1%N))])].
 Definition ex_env : env := [(0%N, VTime (1 # 10)); (1%N, VFloat (3602879701896397 # 36028797018963968) (1 # 10)); (2%N, VInt 1000000)].
 
 (* a for-loop with a negative step whose body depends on the index, a table and atomic arithmetic *)
 Definition ex_for : pt :=
   PFor 3%N (ELit (VInt 5)) (EVar 1%N) (ELit (VInt (-2)))
-    (PSeq [PRep (EVar 3%N) (PAtom KConst 0 (EVar 0%N));
-           PArith (PTable 0 [[ELit (VInt 0); EMul (EVar 0%N) (EVar 3%N)]]) (PAtom KFunc 0 (EMul (EVar 0%N) (EVar 3%N)))]).
+    (PSeq [PRep (EVar 3%N) (PAtom KConst [Some 0%Z] (EVar 0%N));
+           PArith (PTable [(Some 0%Z, [ELit (VInt 0); EMul (EVar 0%N) (EVar 3%N)])]) (PAtom KFunc [Some 0%Z] (EMul (EVar 0%N) (EVar 3%N)))]).
 Definition ex_for_env : env := [(0%N, VTime (1 # 4)); (1%N, VInt 0)].
 
 (* binary vs decimal reading: a float 0.3 (binary value below 3/10) next to a TimeType strictly between the two *)
 Definition w_view : pt * env :=
-  (PTable 0 [[EVar 0%N]; [EVar 1%N]],
+  (PTable [(Some 0%Z, [EVar 0%N]); (Some 1%Z, [EVar 1%N])],
    [(0%N, VFloat (5404319552844595 # 18014398509481984) (3 # 10)); (1%N, VTime (2999999999999999999 # 10000000000000000000))]).
 
 Definition guards_of (w : pt * env) : list bool :=
   [g_view (fst w) (snd w); guard_finding FNegCount (fst w) (snd w); guard_finding FNegDuration (fst w) (snd w);
-   guard_finding FNearInteger (fst w) (snd w); guard_finding FParallel (fst w) (snd w); guard_C04 (fst w) (snd w)].
+   guard_finding FNearInteger (fst w) (snd w); guard_finding FParallel (fst w) (snd w);
+   guard_finding FDropped (fst w) (snd w); g_uniform (fst w) (snd w); guard_C04 (fst w) (snd w)].
 
 Ltac refute := split; [do 2 eexists; split; [vm_compute; reflexivity|]; split; [vm_compute; reflexivity|]; vm_compute; discriminate
                       | vm_compute; reflexivity].
 
 (* each witness: the code's numbers disagree; exactly its own guard is false (and with it guard_C04) *)
-Lemma refuted_negcount : disagrees w_negcount /\ guards_of w_negcount = [true; false; true; true; true; false].
+Lemma refuted_negcount : disagrees w_negcount /\ guards_of w_negcount = [true; false; true; true; true; true; true; false].
 Proof. refute. Qed.
-Lemma refuted_negdur : disagrees w_negdur /\ guards_of w_negdur = [true; true; false; true; true; false].
+Lemma refuted_negdur : disagrees w_negdur /\ guards_of w_negdur = [true; true; false; true; true; true; true; false].
 Proof. refute. Qed.
-Lemma refuted_nearint : disagrees w_nearint /\ guards_of w_nearint = [true; true; true; false; true; false].
+Lemma refuted_nearint : disagrees w_nearint /\ guards_of w_nearint = [true; true; true; false; true; true; true; false].
 Proof. refute. Qed.
-Lemma refuted_parallel : disagrees w_parallel /\ guards_of w_parallel = [true; true; true; true; false; false].
+Lemma refuted_parallel : disagrees w_parallel /\ guards_of w_parallel = [true; true; true; true; false; true; true; false].
 Proof. refute. Qed.
-Lemma refuted_view : disagrees w_view /\ guards_of w_view = [false; true; true; true; true; false].
+Lemma refuted_view : disagrees w_view /\ guards_of w_view = [false; true; true; true; true; true; true; false].
 Proof. refute. Qed.
+
+Lemma refuted_dropped : disagrees w_dropped /\ guards_of w_dropped = [true; true; true; true; true; false; true; false].
+Proof. refute. Qed.
+(* the template, Loop.duration and the pieces agree (9), but to_waveform raises: only g_uniform is false *)
+Lemma refuted_zero_func :
+  (exists kids v, cp real (rs (fst w_zero_func)) (snd w_zero_func) = Ok kids /\ sym (fst w_zero_func) (decimalize (snd w_zero_func)) = Ok v
+                  /\ time_of v == total kids /\ total kids == 9 /\ to_wf (Node 1 kids) = None)
+  /\ guards_of w_zero_func = [true; true; true; true; true; true; false; false].
+Proof.
+  split; [|vm_compute; reflexivity]. do 2 eexists. split; [vm_compute; reflexivity|]. split; [vm_compute; reflexivity|].
+  split; [vm_compute; reflexivity|]. split; vm_compute; reflexivity.
+Qed.
+
+(* channel and parameter mappings inside the guard.  ex_swap: MappingPT(SequencePT(hold, RepetitionPT(ramp, 2)),
+   {t_hold: t_ramp, t_ramp: t_hold}) lasts t_ramp + 2*t_hold (11 for t_hold = 3, t_ramp = 5; the sequential substitution
+   would give 3*t_hold = 9).  ex_drop: TablePT({X: [(0, .), (tx, .)], Y: [(0, .), (ty, .)]}) with the LONGEST channel Y
+   mapped to None by a MappingPT and the other one renamed by create_program: X is still held up to Max(tx, ty) = 5 *)
+Definition ex_swap : pt :=
+  PMap [(0%N, EVar 1%N); (1%N, EVar 0%N)] []
+    (PSeq [PAtom KConst [Some 0%Z] (EVar 0%N); PRep (ELit (VInt 2)) (PAtom KFunc [Some 0%Z] (EVar 1%N))]).
+Definition ex_swap_env : env := [(0%N, VInt 3); (1%N, VInt 5)].
+Definition ex_drop : pt :=
+  PMap [] [(0%Z, Some 2%Z)]
+    (PRep (ELit (VInt 4))
+       (PMap [] [(1%Z, None)] (PTable [(Some 0%Z, [ELit (VInt 0); EVar 0%N]); (Some 1%Z, [ELit (VInt 0); EVar 1%N])]))).
+Lemma example_mappings :
+  guards_of (ex_swap, ex_swap_env) = [true; true; true; true; true; true; true; true]
+  /\ (exists v, sym ex_swap (decimalize ex_swap_env) = Ok v /\ time_of v == 11)
+  /\ guards_of (ex_drop, ex_swap_env) = [true; true; true; true; true; true; true; true]
+  /\ (exists v, sym ex_drop (decimalize ex_swap_env) = Ok v /\ time_of v == 20)
+  /\ create_program real ex_drop ex_swap_env = Ok (Some (Node 1 [Node 4 [Leaf 1 [2%Z] 5]])).
+Proof.
+  split; [vm_compute; reflexivity|]. split; [eexists; split; vm_compute; reflexivity|].
+  split; [vm_compute; reflexivity|]. split; [eexists; split; vm_compute; reflexivity|]. vm_compute. reflexivity.
+Qed.
 
 (* non-vacuity: inputs with a float parameter / a for-loop with negative step, index-dependent body, table, atomic
    arithmetic, constraint, single-waveform rendering satisfy the guard *)
@@ -60,12 +105,12 @@ Definition ex_full : pt := PSeq [PSingle (PConstr [(EVar 1%N, ELit (VInt 0))] ex
 Definition ex_full_env : env := (1%N, VInt 0) :: (3%N, VInt 7) :: ex_env.   (* first binding of a name wins *)
 
 Lemma example_guard :
-  guard_C04 ex_tpl ex_env = true /\ guards_of (ex_tpl, ex_env) = [true; true; true; true; true; true]
+  guard_C04 ex_tpl ex_env = true /\ guards_of (ex_tpl, ex_env) = [true; true; true; true; true; true; true; true]
   /\ exists v, sym ex_tpl (decimalize ex_env) = Ok v /\ time_of v == 3000001 # 10.
 Proof. split; [vm_compute; reflexivity|]. split; [vm_compute; reflexivity|]. eexists; split; vm_compute; reflexivity. Qed.
 
 Lemma example_for_guard :
-  guard_C04 ex_for ex_for_env = true /\ guards_of (ex_for, ex_for_env) = [true; true; true; true; true; true]
+  guard_C04 ex_for ex_for_env = true /\ guards_of (ex_for, ex_for_env) = [true; true; true; true; true; true; true; true]
   /\ exists v, sym ex_for (decimalize ex_for_env) = Ok v /\ time_of v == 9 # 2.
 Proof. split; [vm_compute; reflexivity|]. split; [vm_compute; reflexivity|]. eexists; split; vm_compute; reflexivity. Qed.
 
